@@ -168,6 +168,9 @@ class CallMixin:
                 init = k.__dict__["__init__"]
                 break
         user_init = init is not None and hasattr(init, "__code__") and self.in_repo(init)
+        if dfields is None and not user_init and getattr(cls, "__module__", "") == "builtins":
+            # an unmodelled builtin type applied to values the engine does not track: pure, result unknown
+            return [(st, Opaque(f"{cls.__name__}()"))]
         if dfields is None and not user_init:
             if init is object.__init__ and self.in_repo_class(cls) and not args and not kwargs:
                 return [(st, st.alloc(cls))]       # plain marker class without constructor
@@ -279,7 +282,7 @@ class CallMixin:
             v = args[0] if args else ""
             if isinstance(v, (str, SStr)):
                 return [(st, v)]
-            if isinstance(v, int):
+            if isinstance(v, int) or v is None or isinstance(v, (float, enum.Enum)):
                 return [(st, str(v))]
             if isinstance(v, SInt):
                 return [(st, SStr(z3.If(v.z >= 0, z3.IntToStr(v.z), z3.Concat(z3.StringVal("-"), z3.IntToStr(-v.z)))))]
@@ -395,6 +398,10 @@ class CallMixin:
                 return [(st, f(*args, **kwargs))]
             except Exception as e:
                 return [(st, Exc(type(e), str(e)))]
+        if all(isinstance(a, Opaque) or not is_sym(a) for a in list(args) + list(kwargs.values())):
+            # a builtin applied to opaque values cannot touch the modelled heap; its result is unknown.
+            # (assumed not to raise: listed among the engine's assumptions)
+            return [(st, Opaque(f"builtin {name}"))]
         raise Unsupported(f"builtin {name} on symbolic values", node)
 
     def _unsup(self, what, node):
